@@ -159,6 +159,82 @@ wrap (r1.value, r2.value)
         }
         if bad { std::process::exit(10); }
     }
+    if which == "modlazy" {
+        // a lazy cell that lives in a loaded module (global heap, generation 0), forced from a child thread, then collections
+        vm.load_script("c05cell", r#"
+let { lazy } = import! std.lazy
+let { (++) } = import! std.string
+let left = "cell-payload:0123456789abcdef"
+{ cell = lazy (\_ -> left ++ ":0123456789abcdef0123456789abcdef") }
+"#).unwrap_or_else(|e| panic!("{}", e));
+        let expected = "cell-payload:0123456789abcdef:0123456789abcdef0123456789abcdef";
+        let force_src = r#"let { force } = import! std.lazy in let m = import! c05cell in force m.cell"#;
+        let churn = r#"
+let { (++) } = import! std.string
+let list @ { List } = import! std.list
+let left = "XXXXXXXXXXXXXXXXXXXXXXXXXXXXX"
+let churn n acc : Int -> List String -> List String =
+    if n == 0 then acc else churn (n - 1) (Cons (left ++ "YYYYYYYYYYYYYYYYYYYYYYYYYYYYYYYYY") acc)
+match churn 64 Nil with
+| Cons x _ -> x
+| Nil -> ""
+"#;
+        let forcer = std::env::args().nth(2).unwrap_or("child".into());
+        let child = vm.new_thread().unwrap();
+        let first = if forcer == "child" { child.run_expr::<String>("f0", force_src) } else { vm.run_expr::<String>("f0", force_src) };
+        println!("first force ({}): {:?}", forcer, first.map(|x| x.0).map_err(|e| e.to_string()));
+        let mut bad = false;
+        for i in 0..4 {
+            child.collect();
+            let _ = child.run_expr::<String>(&format!("churn{}", i), churn).unwrap();
+            vm.collect();
+            let _ = vm.run_expr::<String>(&format!("rchurn{}", i), churn).unwrap();
+            let again = vm.run_expr::<String>(&format!("f{}", i + 1), force_src).map(|x| x.0).map_err(|e| e.to_string());
+            println!("force after {} round(s) of collections: {:?}", i + 1, again);
+            if again.as_ref().map(|s| s.as_str()) != Ok(expected) { bad = true; }
+        }
+        if bad { std::process::exit(6); }
+    }
+    if which == "prelazy" {
+        // the same cell, installed as a global by the host (CompilerDatabase::set_global, also the sink of Precompiled::load_script)
+        let (v, typ) = vm.run_expr::<OpaqueValue<RootedThread, Hole>>("mk", r#"
+let { lazy } = import! std.lazy
+let { (++) } = import! std.string
+let left = "cell-payload:0123456789abcdef"
+{ cell = lazy (\_ -> left ++ ":0123456789abcdef0123456789abcdef") }
+"#).unwrap_or_else(|e| panic!("{}", e));
+        // (a serialised Global cannot carry userdata, so the cell reaches set_global through the public host API)
+        let vm2 = vm.clone();
+        vm.get_database_mut().set_global("c05pre", typ, Default::default(), v.get_value());
+        drop(v);
+        let expected = "cell-payload:0123456789abcdef:0123456789abcdef0123456789abcdef";
+        let force_src = r#"let { force } = import! std.lazy in let m = import! c05pre in force m.cell"#;
+        let churn = r#"
+let { (++) } = import! std.string
+let list @ { List } = import! std.list
+let left = "XXXXXXXXXXXXXXXXXXXXXXXXXXXXX"
+let churn n acc : Int -> List String -> List String =
+    if n == 0 then acc else churn (n - 1) (Cons (left ++ "YYYYYYYYYYYYYYYYYYYYYYYYYYYYYYYYY") acc)
+match churn 64 Nil with
+| Cons x _ -> x
+| Nil -> ""
+"#;
+        let _ = force_src;
+        let _ = vm2.run_expr::<OpaqueValue<RootedThread, Hole>>("t2", "let l = import! std.lazy in l.force").unwrap();
+        type LS = OpaqueValue<RootedThread, Lazy<String>>;
+        let (mut force, _) = vm2.run_expr::<gluon::vm::api::OwnedFunction<fn(LS) -> String>>("ff", "let { force } = import! std.lazy in \\c -> force c").unwrap();
+        let cell = || -> LS { vm2.get_global("c05pre.cell").unwrap_or_else(|e| panic!("{}", e)) };
+        println!("first force: {:?}", force.call(cell()).map_err(|e| e.to_string()));
+        let mut bad = false;
+        for i in 0..3 {
+            vm2.collect();
+            let _ = vm2.run_expr::<String>(&format!("rchurn{}", i), churn).unwrap();
+            let again = force.call(cell()).map_err(|e| e.to_string());
+            println!("force after {} collection(s): {:?}", i + 1, again.as_ref().map(|s| s.chars().take(70).collect::<String>()));
+            if again.as_ref().map(|s| s.as_str()) != Ok(expected) { bad = true; }
+        }
+        if bad { std::process::exit(7); }
+    }
     if which == "lazy" {
         let src = r#"let { lazy } = import! std.lazy in lazy (\_ -> error "fail")"#;
         let (l, _) = vm.run_expr::<OpaqueValue<RootedThread, Hole>>("t", src).unwrap(); let l: L = unsafe { std::mem::transmute(l) };
